@@ -86,14 +86,16 @@ func (in *Interp) fmtValue(verb byte, v Value) Value {
 			}
 			return "<native>"
 		}
-		// error / Stringer
+		// error / Stringer (fmt prints <nil> for a nil receiver and recovers from panics in these methods)
+		if c, isPtr := x.v.(*Cell); isPtr && c == nil {
+			return "<nil>"
+		}
 		if m := in.lookupMethod(x.typ, nil, "Error"); m != nil && verb != 'T' {
-			r := in.Call(m, []Value{x.v}, nil)
-			return r
+			return in.callFmtMethod(m, x.v)
 		}
 		if m := in.lookupMethod(x.typ, nil, "String"); m != nil && verb != 'T' && verb != 'd' {
 			if m.Signature.Params().Len() == 0 && m.Signature.Results().Len() == 1 && isStringT(m.Signature.Results().At(0).Type()) {
-				return in.Call(m, []Value{x.v}, nil)
+				return in.callFmtMethod(m, x.v)
 			}
 		}
 		if verb == 'T' {
@@ -1077,6 +1079,18 @@ func init() {
 	// ----- reflect (small) -----
 	I["reflect.DeepEqual"] = func(in *Interp, fn *ssa.Function, a []Value) Value { return in.deepEqual(a[0], a[1]) }
 
+	I["encoding/hex.EncodeToString"] = func(in *Interp, fn *ssa.Function, a []Value) Value {
+		tb := in.tb
+		out := &SymStr{}
+		digit := func(n *Term) *Term { // n: 8-bit value < 16
+			return tb.Ite(tb.Bin("bvult", n, tb.Const(8, 10)), tb.Bin("bvadd", n, tb.Const(8, '0')), tb.Bin("bvadd", n, tb.Const(8, 'a'-10)))
+		}
+		for _, b := range in.bytesOf(a[0]) {
+			out.b = append(out.b, digit(tb.LshrC(b, 4)), digit(tb.Bin("bvand", b, tb.Const(8, 15))))
+		}
+		return normStr(out)
+	}
+
 	// ----- misc -----
 	I["os.Getenv"] = func(in *Interp, fn *ssa.Function, a []Value) Value { return "" }
 	I["runtime.Gosched"] = func(in *Interp, fn *ssa.Function, a []Value) Value { return nil }
@@ -1285,4 +1299,19 @@ func (in *Interp) deepCopyCell(c *Cell, memo map[*Cell]*Cell) *Cell {
 	memo[c] = n
 	n.v = in.deepCopy(c.v, memo)
 	return n
+}
+
+func (in *Interp) callFmtMethod(m *ssa.Function, recv Value) (ret Value) {
+	saved := in.cur
+	defer func() {
+		if r := recover(); r != nil {
+			if _, ok := r.(goPanic); ok {
+				in.cur = saved
+				ret = "%!v(PANIC)"
+				return
+			}
+			panic(r)
+		}
+	}()
+	return in.Call(m, []Value{recv}, nil)
 }
